@@ -474,3 +474,46 @@ def own_column_only(ctx, rule='C14-T5'):
                           'valid value for an integer column), after parts of the chunk have already been cleared',
                           instance=f'{label}: the reset value of {col} stays storable in the column')
     ctx.floor(rule, 'stores to id columns by the stage methods', n, 6)
+
+
+STAGE_METHODS = ('find_slices', 'find_groups', 'find_layers', 'metarize', '__init__')
+
+
+def queries_are_pure(ctx, rule='C14-T6'):
+    """Everything a caller can invoke on a chunk besides the stages - metar_msg(), the properties, data_rescaled() - is
+    a query: it writes nothing of the chunk (no attribute, no table, no per-hit column).  A query with a hidden write
+    makes the answer of the next query depend on which queries were asked before."""
+    from sa.rules.common import effects
+    fx = effects(ctx)
+    p = ctx.project
+    n = 0
+    done = set()
+    # every method a CeiloChunk answers to, wherever it is defined (base class, mixin)
+    top = p.klass('ampycloud.data.CeiloChunk', rule)
+    methods = {}
+    for k in reversed(p.mro(top)):
+        methods.update({nm: (k, m) for nm, m in k.methods.items()})
+    for nm, (k, m) in sorted(methods.items()):
+        cq = k.qname
+        if True:
+            if nm in STAGE_METHODS or (nm.startswith('_') and not nm.startswith('__')) or m.qname in done:
+                continue
+            done.add(m.qname)
+            if any(d.endswith('.setter') for d in m.decorators):
+                continue
+            n += 1
+            ctx.saw(m)
+            bad = False
+            for (key, deep), (e, via) in sorted(fx.mutations(m.qname).items(), key=lambda kv: str(kv[0])):
+                if key[0] == 'self' or key == ('param', 'self'):
+                    bad = True
+                    steps = fx.explain(m.qname, (key, deep))
+                    last_q, last_e = steps[-1] if steps else (m.qname, e)
+                    what = f'self.{key[1]}' if key[0] == 'self' else 'an attribute of the chunk'
+                    ctx.violation(rule, last_q, last_e.node, last_e.loc(),
+                                  f'{nm} is a query but writes {what}' + (f' (through {via})' if via else '') +
+                                  ': later queries and stages see a chunk that depends on which queries were made',
+                                  instance=f'{cq.split(".")[-1]}.{nm}: writes nothing of the chunk')
+            if not bad:
+                ctx.ok(rule, f'{cq.split(".")[-1]}.{nm}: writes nothing of the chunk', m.loc())
+    ctx.floor(rule, 'query methods and properties of the chunk classes', n, 15)
